@@ -8,6 +8,7 @@ and of the system-level oracles (DESIGN.md 3.3-3.5, 4).
 """
 from __future__ import annotations
 
+import os
 import shutil
 from dataclasses import dataclass, field
 from pathlib import Path
@@ -321,7 +322,20 @@ class Side:
         sub = op[1]
         comps, i = codec.take_path(op, 2)
         p = self.w.pm.to_path(comps)
-        if sub == 0:
+        store = self.mem_store()
+        if store is not None:
+            k = str(p)
+            if sub == 0:
+                store.nodes[k] = None
+            elif sub == 1:
+                store.nodes[k] = bytes(op[i + 1:i + 1 + op[i]])
+                if getattr(self.w, "vfs_kind", "native") == "decoy":
+                    p.parent.mkdir(parents=True, exist_ok=True)
+                    p.write_bytes(b"DECOY-" + bytes(reversed(store.nodes[k])) + b"-decoy")
+            elif sub == 2:
+                for q in [q for q in store.nodes if q == k or q.startswith(k + "/")]:
+                    del store.nodes[q]
+        elif sub == 0:
             p.mkdir(parents=False, exist_ok=True)
         elif sub == 1:
             n = op[i]
@@ -333,8 +347,19 @@ class Side:
                 p.unlink()
         self.record(op, 0, 0)
 
+    def mem_store(self):
+        if getattr(self.w, "vfs_kind", "native") == "native":
+            return None
+        return self.w.src_vfs if self.kind == "source" else self.w.dst_vfs
+
     def snapshot_file(self, comps):
         p = self.w.pm.to_path(comps)
+        store = self.mem_store()
+        if store is not None:
+            v = store.nodes.get(str(p), "absent")
+            extra = [0, 0, 0] if v == "absent" else ([1, 1, 0] if v is None else [1, 0, len(v)] + list(v))
+            self.record([10] + codec.enc_path(comps), 0, 0, extra)
+            return extra
         if not p.exists():
             extra = [0, 0, 0]
         elif p.is_dir():
@@ -347,15 +372,27 @@ class Side:
 
 
 class World:
-    def __init__(self, cfg: Cfg, tag="w"):
+    def __init__(self, cfg: Cfg, tag="w", vfs="native", reset_clock=True):
+        """vfs: 'native' (host sandbox) | 'mem' (in-memory stores, paths do not exist on the host) |
+        'decoy' (in-memory stores while decoy files with other content sit on the host at the same paths)"""
         self.cfg = cfg
+        self.vfs_kind = vfs
         self.root = common.sandbox_dir(tag)
-        self.pm = codec.PathMap(str(self.root))
-        VClock.now = 0
+        if vfs == "mem":
+            self.pm = codec.PathMap(f"/cfdp-virtual-{os.getpid()}-{tag}")
+        else:
+            self.pm = codec.PathMap(str(self.root))
+        if reset_clock:
+            VClock.now = 0
         self.src = Side(self, "source")
         self.dst = Side(self, "dest")
-        self.src_vfs = NativeFilestore()
-        self.dst_vfs = RejectingFilestore()
+        if vfs == "native":
+            self.src_vfs = NativeFilestore()
+            self.dst_vfs = RejectingFilestore()
+        else:
+            from harness.memfs import MemFilestore
+            self.src_vfs = MemFilestore(self.pm.root)
+            self.dst_vfs = MemFilestore(self.pm.root)
         self.link_s2d = []   # in-flight packed PDUs (bytes)
         self.link_d2s = []
         self._build()
@@ -441,6 +478,9 @@ class World:
 
 def dest_file_bytes(w: World, comps=None):
     p = w.pm.to_path(comps if comps is not None else w.cfg.dst_path)
+    if getattr(w, "vfs_kind", "native") != "native":
+        v = w.dst_vfs.nodes.get(str(p))
+        return v if isinstance(v, bytes) else None
     if p.is_file():
         return p.read_bytes()
     return None
